@@ -278,6 +278,13 @@ func (rc *rebuildCtx) analyseLoop(outer *symState, loop ast.Stmt, method string,
 		return "?", nil, []string{"a rebuild loop is not a for statement"}
 	}
 	env, writes, _ := rc.newEnv()
+	// the init statement of the loop (for ordinal := 1; ...) belongs to the state before the loop
+	if fs.Init != nil {
+		if sts := env.exec(outer.clone(), fs.Init); len(sts) == 1 && len(env.problems) == 0 {
+			outer = sts[0]
+		}
+		env.problems = nil
+	}
 	// generic pre-state: every variable assigned in the loop is a symbol of its own name
 	env.init = map[string]Val{}
 	var carried []string
